@@ -26,6 +26,10 @@ def main():
     checks = sys.argv[5].split(",") if len(sys.argv) > 5 else [prop]
     dest = VERIF / "seeded" / name
     dest.mkdir(parents=True, exist_ok=True)
+    if sys.argv[3] == "-":  # re-run the checks only (the seed was confirmed before): keeps the confirmation record
+        meta = json.loads((dest / "meta.json").read_text())
+        run_checks(dest, meta, checks)
+        return
     demo = next(wt.glob("demo_*.py"))
     if wt.resolve() != dest.resolve():
         shutil.copy(wt / "patch.diff", dest / "patch.diff")
@@ -53,12 +57,16 @@ def main():
         print(f"demo without patch: exit {rc0}; with patch: exit {rc1}; tests: {meta['ran']['tests_with_patch']}; confirmed={meta['confirmed']}")
     finally:
         sh(f"git -C /repo worktree remove --force {sv}")
+    run_checks(dest, meta, checks)
+
+
+def run_checks(dest, meta, checks):
     # run the checks against /repo with the patch applied
     rc, out = sh("git -C /repo status --porcelain")
     assert out.strip() == "", "/repo not clean: " + out
     rca, outa = sh(f"git -C /repo apply {dest / 'patch.diff'}")
     assert rca == 0, outa
-    meta["checks"] = {}
+    meta.setdefault("checks", {})
     try:
         for c in checks:
             rcc, outc = sh(f"cd /verif && ./check {c} --tier quick --no-evidence", timeout=3600)
@@ -69,7 +77,7 @@ def main():
                 print("   ", l[:220])
     finally:
         sh("git -C /repo checkout -- .")
-    meta["detected_by"] = [c for c, v in meta["checks"].items() if v["exit"] == 1]
+    meta["detected_by"] = sorted(c for c, v in meta["checks"].items() if v["exit"] == 1)
     (dest / "meta.json").write_text(json.dumps(meta, indent=1))
     print("detected_by:", meta["detected_by"])
 
